@@ -54,4 +54,40 @@ for x in t[i]['st']:
 r, p = accepted(t)
 print('(iv) reservation count in the logged manager state of event %d incremented: %s' % (i, 'rejected' if not r else 'ACCEPTED'))
 results.append(not r)
+
+# ---- level 2 (SwarmObs.tla): the property-level reading is bound to the recorded execution as well ------------
+def obs(trace, tag):
+    r = sw.validate_obs('SELF', S, trace, tag=tag)
+    return r['violated'], r['matched'] == len(trace)
+
+
+v, full = obs(enc, 'o0')
+print('level 2, unmodified trace: %s' % ('clean' if not v and full else 'FLAGGED %s' % v))
+results.append(not v and full)
+# (v) an owned piece is missing again in a later logged manager state
+t = copy.deepcopy(enc)
+i = next(k for k, e in enumerate(t) if 'st' in e and any(x['k'] == 'H' for x in e['st']))
+j = next(k for k in range(i + 1, len(t)) if 'st' in t[k])
+pi = next(n for n, x in enumerate(t[i]['st']) if x['k'] == 'H')      # owned since event i
+for e in t[j:]:
+    if 'st' in e:
+        e['st'][pi]['k'] = 'M'        # ... and stays Missing in every later logged state
+v, _ = obs(t, 'o5')
+print('(v) an owned piece turned Missing in the logged manager state of event %d: %s' % (j, 'flagged %s' % v if v else 'NOT FLAGGED'))
+results.append('THaveStable' in v)
+# (vi) a Have frame is removed from what a task wrote: the announcement is missing at rest
+t = copy.deepcopy(enc)
+i = next(k for k, e in enumerate(t) if e['e'] in ('Call', 'End') and any(f['t'] == 'Have' for f in e['sent']))
+t[i]['sent'] = [f for f in t[i]['sent'] if f['t'] != 'Have']
+v, _ = obs(t, 'o6')
+print('(vi) the Have frame written at event %d removed: %s' % (i, 'flagged %s' % v if v else 'NOT FLAGGED'))
+results.append(bool({'ObsAnnAtRest', 'ObsAnnPrefix'} & set(v)))
+# (vii) a Request frame is duplicated in what a task wrote: a block asked for twice
+t = copy.deepcopy(enc)
+i = next(k for k, e in enumerate(t) if e['e'] in ('Call', 'End') and any(f['t'] == 'Request' for f in e['sent']))
+rq = next(f for f in t[i]['sent'] if f['t'] == 'Request')
+t[i]['sent'].append(dict(rq))
+v, _ = obs(t, 'o7')
+print('(vii) a Request frame written at event %d duplicated: %s' % (i, 'flagged %s' % v if v else 'NOT FLAGGED'))
+results.append('ObsTile' in v)
 sys.exit(0 if all(results) else 1)
